@@ -51,7 +51,11 @@ func (propC03) Gen(r *Rng, tier string) *World {
 	w.Cfg.Event = []string{"", "", "", "report", "debug", "both"}[r.Intn(6)]
 	w.API = "eval"
 	first := r.Intn(16)
-	for i := 0; i < 4; i++ {
+	nm := 4
+	if tier == "thorough" {
+		nm = 8
+	}
+	for i := 0; i < nm; i++ {
 		w.Masks = append(w.Masks, (first+i*[]int{1, 3, 5, 7}[r.Intn(4)])%16)
 	}
 	base := Plan{Bind: g.Binding()}
